@@ -97,6 +97,87 @@ theorem blocked_calls_are_released (su : Nat → Nat → Bool) (c c' : Cache) (a
 example : finalizeCheck 0 0 0 = .invalidNumCounters ∧ finalizeCheck 1 0 0 = .invalidMaxCost ∧
           finalizeCheck 1 (-3) 0 = .invalidBufferSize ∧ finalizeCheck 1 (-3) 1 = .ok := by decide
 
+-- the builder carries every setting to the component that uses it --------------------------------------
+
+/-- the value the last call for a field gave it, or the field's default -/
+def lastOf {α : Type} (pick : Setter → Option α) (dflt : α) (calls : List Setter) : α :=
+  ((calls.reverse.filterMap pick).head?).getD dflt
+
+theorem foldl_set_field {α : Type} (proj : BuilderCore → α) (pick : Setter → Option α)
+    (hset : ∀ b s, proj (b.set s) = (pick s).getD (proj b)) (calls : List Setter) (b : BuilderCore) :
+    proj (calls.foldl BuilderCore.set b) = lastOf pick (proj b) calls := by
+  induction calls generalizing b with
+  | nil => simp [lastOf]
+  | cons s rest ih =>
+    simp only [List.foldl_cons]
+    rw [ih]
+    unfold lastOf
+    simp only [List.reverse_cons, List.filterMap_append, List.filterMap_cons, List.filterMap_nil]
+    rw [hset]
+    cases hp : pick s with
+    | none => simp
+    | some v =>
+      simp only [Option.getD_some, List.head?_append]
+      cases ((List.filterMap pick rest.reverse).head?) <;> simp
+
+/-- **the last call for each field wins, whatever the order of the calls** — in particular the five
+type-changing setters (`set_key_builder`, `set_coster`, `set_update_validator`, `set_callback`,
+`set_hasher`), wherever they stand in the chain, leave every plain setting as it was; and an accepted
+configuration hands each setting to the component that uses it: `num_counters` to the estimator,
+`max_cost` to the policy, `buffer_items` to the get ring, the buffer size to the insert buffer, the two
+flags and the cleanup interval to the processor. -/
+theorem build_uses_last_settings (n : Nat) (mc : Int) (calls : List Setter) (e : Effective)
+    (h : buildWith n mc calls = .ok e) :
+    e.numCounters = lastOf (fun | .numCounters v => some v | _ => none) n calls ∧
+    e.maxCost = lastOf (fun | .maxCost v => some v | _ => none) mc calls ∧
+    e.ringCap = lastOf (fun | .bufferItems v => some v | _ => none) 64 calls ∧
+    e.bufCap = lastOf (fun | .bufferSize v => some v | _ => none) 32768 calls ∧
+    e.metricsOn = lastOf (fun | .metrics v => some v | _ => none) false calls ∧
+    e.ignoreInternalCost = lastOf (fun | .ignoreInternal v => some v | _ => none) false calls ∧
+    e.cleanupNs = lastOf (fun | .cleanup v => some v | _ => none) 2000000000 calls := by
+  unfold buildWith BuilderCore.finalize at h
+  split at h
+  · simp only [Except.ok.injEq] at h
+    subst h
+    refine ⟨?_, ?_, ?_, ?_, ?_, ?_, ?_⟩
+    · exact foldl_set_field (·.numCounters) _ (by intro b s; cases s <;> rfl) calls _
+    · exact foldl_set_field (·.maxCost) _ (by intro b s; cases s <;> rfl) calls _
+    · exact foldl_set_field (·.bufferItems) _ (by intro b s; cases s <;> rfl) calls _
+    · exact foldl_set_field (·.insertBufferSize) _ (by intro b s; cases s <;> rfl) calls _
+    · exact foldl_set_field (·.metrics) _ (by intro b s; cases s <;> rfl) calls _
+    · exact foldl_set_field (·.ignoreInternalCost) _ (by intro b s; cases s <;> rfl) calls _
+    · exact foldl_set_field (·.cleanupNs) _ (by intro b s; cases s <;> rfl) calls _
+  · cases h
+
+/-- and the chain is accepted exactly when the last `num_counters`, `max_cost` and buffer size are non-zero -/
+theorem build_accepted_iff (n : Nat) (mc : Int) (calls : List Setter) :
+    (∃ e, buildWith n mc calls = .ok e) ↔
+      lastOf (fun | .numCounters v => some v | _ => none) n calls ≠ 0 ∧
+      lastOf (fun | .maxCost v => some v | _ => none) mc calls ≠ 0 ∧
+      lastOf (fun | .bufferSize v => some v | _ => none) 32768 calls ≠ 0 := by
+  have h1 := foldl_set_field (·.numCounters) (fun | .numCounters v => some v | _ => none)
+    (by intro b s; cases s <;> rfl) calls ({ numCounters := n, maxCost := mc } : BuilderCore)
+  have h2 := foldl_set_field (·.maxCost) (fun | .maxCost v => some v | _ => none)
+    (by intro b s; cases s <;> rfl) calls ({ numCounters := n, maxCost := mc } : BuilderCore)
+  have h3 := foldl_set_field (·.insertBufferSize) (fun | .bufferSize v => some v | _ => none)
+    (by intro b s; cases s <;> rfl) calls ({ numCounters := n, maxCost := mc } : BuilderCore)
+  simp only [] at h1 h2 h3
+  rw [← h1, ← h2, ← h3]
+  unfold buildWith BuilderCore.finalize
+  constructor
+  · rintro ⟨e, he⟩
+    split at he
+    · rename_i hv; exact (accepted_iff _ _ _).mp hv
+    · cases he
+  · intro h
+    have := (accepted_iff _ _ _).mpr h
+    simp only [this]
+    exact ⟨_, rfl⟩
+
+example : buildWith 100 50 [.cleanup 50000000, .bufferSize 8, .ignoreInternal true, .hasher 1, .callback 2] =
+    .ok { numCounters := 100, maxCost := 50, ringCap := 64, bufCap := 8, metricsOn := false,
+          ignoreInternalCost := true, cleanupNs := 50000000 } := by rfl
+
 end Stretto.C20
 
 #print axioms Stretto.C20.finalize_rejects
@@ -107,3 +188,5 @@ end Stretto.C20
 #print axioms Stretto.C20.ring_any_capacity
 #print axioms Stretto.C20.ring_zero_or_one_flushes_every_push
 #print axioms Stretto.C20.blocked_calls_are_released
+#print axioms Stretto.C20.build_uses_last_settings
+#print axioms Stretto.C20.build_accepted_iff
